@@ -37,9 +37,23 @@ pub struct Local {
 	pub evals: u64,
 	pub classes: HashMap<String, u64>,
 	pub distinct: HashSet<u64>,
+	/// cases that are distinct by construction of the enumeration (deduplicated up front)
+	pub unique: u64,
 }
 
 impl Local {
+	/// Record a case that the enumeration generates exactly once (inputs deduplicated by the generator).
+	pub fn case_unique(&mut self, class: &str) {
+		self.evals += 1;
+		self.unique += 1;
+		match self.classes.get_mut(class) {
+			Some(c) => *c += 1,
+			None => {
+				self.classes.insert(class.to_string(), 1);
+			}
+		}
+	}
+
 	/// Record one evaluated case: `key` identifies the case (for distinct counting),
 	/// `nontrivial` says whether it counts as non-trivial, `class` is its outcome class.
 	pub fn case(&mut self, key: u64, nontrivial: bool, class: &str) {
@@ -71,6 +85,7 @@ pub struct Reporter {
 	pub jobs: usize,
 	start: Instant,
 	evals: AtomicU64,
+	unique: AtomicU64,
 	pub states: AtomicU64,
 	pub transitions: AtomicU64,
 	pub traces: AtomicU64,
@@ -95,6 +110,7 @@ impl Reporter {
 			jobs,
 			start: Instant::now(),
 			evals: AtomicU64::new(0),
+			unique: AtomicU64::new(0),
 			states: AtomicU64::new(0),
 			transitions: AtomicU64::new(0),
 			traces: AtomicU64::new(0),
@@ -116,6 +132,7 @@ impl Reporter {
 
 	pub fn merge(&self, l: Local) {
 		self.evals.fetch_add(l.evals, Ordering::Relaxed);
+		self.unique.fetch_add(l.unique, Ordering::Relaxed);
 		let mut c = self.classes.lock().unwrap();
 		for (k, v) in l.classes {
 			*c.entry(k).or_insert(0) += v;
@@ -236,7 +253,7 @@ impl Reporter {
 		}
 
 		let classes = self.classes.lock().unwrap();
-		let distinct = self.distinct.lock().unwrap().len() as u64;
+		let distinct = self.distinct.lock().unwrap().len() as u64 + self.unique.load(Ordering::Relaxed);
 		let evals = self.evals.load(Ordering::Relaxed);
 		let mut cov = Map::new();
 		cov.insert("evaluations".into(), json!(evals));
